@@ -163,23 +163,29 @@ def quote(v):
     return "\n;" + v + "\n;\n"
 
 
-def emit_blocks(blocks):
+def emit_blocks(blocks, layout=0):
     """blocks: list of (name, cats)."""
-    return "".join(emit(n, c) for n, c in blocks)
+    return "".join(emit(n, c, layout) for n, c in blocks)
 
 
-def emit(name, cats):
-    """cats: list of (category, items, rows, kind)."""
+def emit(name, cats, layout=0):
+    """cats: list of (category, items, rows, kind).  layout: 0 = data names in column 1 (as the PDB writes them);
+    1 / 2 = data names indented by blanks / a tab; 3 = the names of a loop on the loop_ line (CIF is free-format:
+    tokens are separated by any white space)."""
+    ind = {0: "", 1: "  ", 2: "\t", 3: " "}[layout]
     out = [f"data_{name}", "#"]
     for cat, items, rows, kind in cats:
         if kind == "kv":
             for it, v in zip(items, rows[0]):
                 q = quote(v)
-                out.append(f"_{cat}.{it}   {q}" if not q.startswith("\n") else f"_{cat}.{it}{q.rstrip(chr(10))}")
+                out.append(f"{ind}_{cat}.{it}   {q}" if not q.startswith("\n") else f"{ind}_{cat}.{it}{q.rstrip(chr(10))}")
+        elif layout == 3:
+            out.append("loop_ " + " ".join(f"_{cat}.{it}" for it in items))
         else:
             out.append("loop_")
             for it in items:
-                out.append(f"_{cat}.{it}")
+                out.append(f"{ind}_{cat}.{it}")
+        if kind != "kv":
             for r in rows:
                 line = ""
                 for v in r:
